@@ -8,7 +8,7 @@ import units
 from units import PASS, VIOLATION, INCONCLUSIVE, VERIF, BUILD
 
 _cache = {}
-HOOK_COMMITS = []
+HOOK_COMMITS = ['13ec4a7']
 
 SHAPES_Q = '0:1,1:1,2:2,3:1,4:4,8:8,12:4,0:4'
 SHAPES_T = '0:1,1:1,2:2,3:1,4:4,8:8,12:4,0:4,16:16,24:8,2:1,0:8'
@@ -285,5 +285,40 @@ PROPERTIES['C16'] = {
     'unchecked': ['"a panic inside a field\'s clone leaks or double-drops nothing": needs unwinding, which Kani does not model'],
 }
 
+INCRATE = {'kind': 'kani', 'crate': 'incrate', 'repo_crates': ['truc', 'truc_runtime'], 'flags': [],
+           'env': {'VERIF_KANI_DIR': os.path.join(VERIF, 'kani', 'incrate')}, 'timeout': 2400}
+K_DEF = dict(INCRATE, name='kani-definition', harnesses=['definition::verif_kani'], min_harnesses=4,
+             bounded='BOUNDED: definitions of <= 3 data in one variant (symbolic offsets <= 2^40, sizes <= 2^20, power-of-two alignments <= 16, third datum optionally added-and-removed-before-close); remove_data on lists <= 4 with <= 3 removals',
+             functions=['truc/src/record/definition/mod.rs RecordDefinition::max_size', 'truc/src/record/definition/mod.rs RecordDefinition::max_type_align',
+                        'truc/src/record/definition/builder/native/variant/mod.rs <Vec<DatumId> as NativeDataUpdater>::remove_data'])
+K_B5 = dict(INCRATE, name='kani-builder-lookup', harnesses=['generic::verif_kani'], min_harnesses=4,
+            bounded='BOUNDED: last variant [a, b], optional pending removal of each, optional pending addition c; names from {a,b,c,d}; one operation per harness on a state written as a struct literal',
+            functions=['truc/src/record/definition/builder/generic/mod.rs get_current_data', 'truc/src/record/definition/builder/generic/mod.rs get_current_datum_definition_by_name',
+                       'truc/src/record/definition/builder/generic/mod.rs get_variant_datum_definition_by_name', 'truc/src/record/definition/builder/generic/mod.rs add_datum (duplicate-name check)'],
+            assumptions=['alloc::fmt::format is stubbed by an empty string (error text is not part of the property; formatting dominates CBMC cost)'])
+
+PROPERTIES['C13'] = {
+    'level': 'model_checking',
+    'units': lambda tier: [V_NATIVE, K_DEF, V_LAYOUT, BX_SIMPLE],
+    'explanation': 'Display: fmt_variant_representation (extracted, write! statements dropped) is proved panic-free by Verus for every variant list in address order, '
+                   'which the strategy contracts establish (Verus for append/basic, bounded for simple). max_size / max_type_align: Kani, no panic on any '
+                   'state the builder can leave (incl. data added and removed before close).',
+    'unchecked': ['generate() itself (string emission through codegen/format!) and "the generated module compiles with any fragment selection": outside both verifiers; the corpus modules of gk compile, which is observed, not decided'],
+}
+
+PROPERTIES['C01']['units'] = lambda tier: [V_LAYOUT, BX_SIMPLE, K_DEF, V_BUILDER]
 PROPERTIES['C02'] = dict(PROPERTIES['C01'])
+PROPERTIES['C02']['units'] = lambda tier: [V_LAYOUT, BX_SIMPLE, K_DEF, GK]
+PROPERTIES['C02']['explanation'] = ('Alignment and address order are clauses of the variant invariant WF proved (Verus) for align_bytes, end, push_datum, append_data, '
+    'append_data_reverse, basic on text extracted from /repo; simple() bounded. Capacity and record alignment: Kani contract of max_size / max_type_align '
+    '(every datum of a variant ends at or before max_size, max_type_align is a multiple of its alignment). Published constants: corpus harnesses assert '
+    'MAX_SIZE == capacity of the definition, align_of::<RecordK>() == its alignment, every field offset/size inside.')
 PROPERTIES['C03'] = dict(PROPERTIES['C01'])
+PROPERTIES['C03']['units'] = lambda tier: [V_LAYOUT, BX_SIMPLE, K_DEF, V_BUILDER, GK]
+PROPERTIES['C03']['explanation'] = ('First sentence = frame clause of the strategy contract (only offsets of data_to_add change; Verus for append/basic/push_datum, bounded for '
+    'simple) + close_record_variant_with leaves earlier variants untouched and add_datum only appends (Verus, unit builder). Second sentence: corpus harnesses '
+    'assert equal size_of / align_of of all CappedRecordK<CAP> for CAP = MAX_SIZE, MAX_SIZE+1, 2*MAX_SIZE+3.')
+PROPERTIES['C03']['unchecked'] = ['"a repr(align(N)) struct of one [u8; CAP] has size roundup(CAP, N)" is Rust\'s layout rule: evaluated by the compiler for the corpus instances, assumed in general']
+PROPERTIES['C12']['units'] = lambda tier: [V_BUILDER, K_B5, V_LAYOUT, BX_SIMPLE, K_DEF]
+PROPERTIES['C12']['unchecked'] = ['native builder operations are one-line delegations to the generic builder (not extracted)',
+                                  'name lookups are checked by Kani on a bounded family of states only (unit kani-builder-lookup); Verus uses their contract as an assumption']
